@@ -482,6 +482,12 @@ func c05Scenarios(thorough bool) []c05Scenario {
 		suites = append(suites, "mix")
 		maxes = append(maxes, 3)
 	}
+	if !thorough {
+		// suites restricted to one run mode / protocol, in every mode (no filters, one slot)
+		for _, mode := range []string{"both", "client", "server"} {
+			out = append(out, c05Scenario{Cfg: "A2", Suites: "mix", Mode: mode, MaxServers: 1, FailStart: -1})
+		}
+	}
 	for _, cfg := range cfgs {
 		for _, su := range suites {
 			if !thorough && cfg == "A3" && su == "two" {
